@@ -158,8 +158,53 @@ def tr_block_string(ctx):
             _file("src/py_gql/_string_utils.py (parse_block_string)", [part])}
 
 
+# ---- lang/lexer.py: Lexer._read_name, Lexer._read_over_digits (C01) --------------------------------------------
+
+def tr_lexer(ctx):
+    import string
+    src = SRC("lang/lexer.py")
+    imported = set()
+    for n in ast.parse(src).body:
+        if isinstance(n, ast.ImportFrom) and n.module == "string" and n.level == 0:
+            imported |= {a.name for a in n.names if a.asname is None}
+    if not {"ascii_letters", "digits"} <= imported:
+        raise Untranslatable("`from string import ascii_letters, digits` not found in lexer.py")
+    consts = {"digits": ("(%s : List Nat)" % py2lean._codes(string.digits), TEXT),
+              "ascii_letters": ("(%s : List Nat)" % py2lean._codes(string.ascii_letters), TEXT)}
+    fn = py2lean.find_function(src, "_read_name", cls="Lexer")
+    dflt = [ast.unparse(d) for d in fn.args.defaults]
+    if [a.arg for a in fn.args.args] != ["self", "__ascii_letters"] or dflt != ["ascii_letters"]:
+        raise Untranslatable("signature of Lexer._read_name is not (self, __ascii_letters=ascii_letters)")
+    fn.args.defaults = []
+    # the mangled default parameter is only ever the default: read it as the constant
+    consts["__ascii_letters"] = consts["ascii_letters"]
+    consts["_Lexer__ascii_letters"] = consts["ascii_letters"]
+    name_src = src.replace("self, __ascii_letters: Container[str] = ascii_letters", "self")
+    st = {"self__source": TEXT, "self__position": INT}
+    tok = ("Tuple", INT, INT, TEXT)
+    read_name = py2lean.translate_function(
+        name_src, "_read_name", "Lexer._read_name", cls="Lexer", params=dict(st), ret=tok, self_state=["_position"],
+        externals={"Name": Ext("Py.tok3", tok)}, consts=consts,
+        fuel=["len(self__source) - self__position + 1"])
+    read_digits = py2lean.translate_function(
+        src, "_read_over_digits", "Lexer._read_over_digits", cls="Lexer", params=dict(st), ret="Unit", self_state=["_position"],
+        consts=consts, fuel=["len(self__source) - self__position + 1"])
+    note = ("/- Methods of `Lexer`: `self._source` is the parameter `self__source`, `self._position` the parameter `self__position`\n"
+            "   whose final value is returned next to the result; `Name(start, end, value)` is the triple of its arguments;\n"
+            "   `digits` / `ascii_letters` are the constants of the standard `string` module (checked: imported from there);\n"
+            "   the exception arguments (position, source) are dropped. -/")
+    return {"PyGqlModel/Generated/TrLexer.lean":
+            _file("src/py_gql/lang/lexer.py (Lexer._read_name, Lexer._read_over_digits)", [read_name, read_digits], note)}
+
+
+def tr_c01(ctx):
+    out = dict(tr_index_to_loc(ctx))
+    out.update(tr_lexer(ctx))
+    return out
+
+
 EXTRA = {
-    "C01": tr_index_to_loc,
+    "C01": tr_c01,
     "C10": tr_index_to_loc,
     "C04": tr_collect,
     "C05": tr_collect,
@@ -169,7 +214,7 @@ EXTRA = {
 }
 
 GENERATED = {
-    "C01": ["PyGqlModel/Generated/TrIndexToLoc.lean"],
+    "C01": ["PyGqlModel/Generated/TrIndexToLoc.lean", "PyGqlModel/Generated/TrLexer.lean"],
     "C10": ["PyGqlModel/Generated/TrIndexToLoc.lean"],
     "C04": ["PyGqlModel/Generated/TrCollect.lean"],
     "C05": ["PyGqlModel/Generated/TrCollect.lean"],
